@@ -149,6 +149,16 @@ type world struct {
 	wg      sync.WaitGroup // harness goroutines (VCs, triggers, byzantine drivers)
 	stopped atomic.Bool
 
+	// A validator client that signs the same duty AGAIN is, for the cluster, one equivocating share.
+	// While the node still holds its record of what that share signed it refuses the second
+	// signature itself (that is what the re-signing workload judges, for every n). Once the node has
+	// expired the duty locally the record is gone, the node relays what its VC signs, and the
+	// statement's bound of f equivocating shares applies instead (f = 0 for n = 3). So re-signing VCs
+	// stop before the harness expires duties: resignMu is held shared around every re-submission and
+	// exclusively while resignClosed is set.
+	resignMu     sync.RWMutex
+	resignClosed bool
+
 	// candidate pools
 	headRoots [][32]byte
 	syncRoots [][32]byte
